@@ -557,8 +557,10 @@ func callSSA(i *interpreter, caller *frame, callpos token.Pos, fn *ssa.Function,
 			panic(unsupported("no code for function: " + name))
 		}
 		if i.res != nil && fn.Pkg != nil {
-			if pp := fn.Pkg.Pkg.Path(); strings.HasPrefix(pp, "mods.irisnet.org/") {
-				i.res.funcs[name] = true
+			if pp := fn.Pkg.Pkg.Path(); strings.HasPrefix(pp, "mods.irisnet.org/") && !i.res.funcs[name] {
+				if !strings.Contains(i.prog.Fset.Position(fn.Pos()).Filename, "zz_verif") {
+					i.res.funcs[name] = true
+				}
 			}
 		}
 	}
